@@ -1,93 +1,126 @@
 ------------------------------- MODULE TextCodecMC -------------------------------
 (* Exhaustive small-scope model for C04.                                          *)
-(*  - ChooseLayout / ChooseRows enumerate every table of the bounded space (these *)
-(*    states are exported as JSON and every one is written and read back with the *)
-(*    real code, for every delimiter);                                            *)
+(*  - ChooseLayout / ChooseRows enumerate every table of the bounded families     *)
+(*    (these states are exported as JSON and every one is written and read back   *)
+(*    with the real code, for every delimiter);                                   *)
 (*  - Write / ReadStrField / ScanNumField / Finish run the character-level        *)
 (*    mechanism of TextCodec.tla (records.cpp) on the table, one action per field *)
 (*    read, for every delimiter class;                                            *)
 (*  - MechRefines: the finished read returned the table.  The pinned scanner      *)
-(*    violates it; MechRefinesModHazards / HazardsFail say that it does so        *)
-(*    exactly on the named hazards, and reader = "fixed" meets MechRefines.       *)
+(*    violates it; MechRefinesModHazards says that it does so only on the named   *)
+(*    hazards, and Reader = "fixed" meets MechRefines.                            *)
 EXTENDS TextCodec, Json
 
-CONSTANTS Types,        \* field types (names of TCTypes)
-          Shapes,       \* sub-array shapes (names of TCShapes)
-          MaxFields,    \* layouts of 1..MaxFields fields
-          MaxRowEl,     \* ... with at most this many elements per row
-          MaxRows,      \* tables of 1..MaxRows rows
-          Cap,          \* ... as long as the layout has at most Cap tables of that many rows
-          Filter,       \* "any" | "adj" (a string next to a number, or a single field) | "num" (numbers only)
-          IntToks, UIntToks, FltToks,   \* number tokens per kind
-          Chars,        \* characters of string cells
-          ExhW,         \* strings up to this width: every word; wider: the 12 patterns
+CONSTANTS Fams,         \* names of the bounded families to explore (fields of FamDefs)
           DClasses,     \* delimiter classes run through the mechanism
           Reader,       \* "pinned" | "fixed"
           DoExport      \* TRUE: print every table as JSON
 
-VARIABLES phase, lay, t, dc, txt, pos, ri, fi, cur, acc, res
-vars == <<phase, lay, t, dc, txt, pos, ri, fi, cur, acc, res>>
+VARIABLES phase, fam, lay, t, dc, txt, pos, ri, fi, cur, acc, res
+vars == <<phase, fam, lay, t, dc, txt, pos, ri, fi, cur, acc, res>>
+
+\* ---- the bounded families ---------------------------------------------------------
+\* A family: layouts of 1..MaxFields fields over Types x Shapes with at most MaxRowEl
+\* elements per row (Filter: "any" | "adj" = a string next to a number, or a single
+\* string field | "num" = numbers only); tables of 1..MaxRows rows as long as the layout
+\* has at most Cap tables of that many rows; cells over the token sets; strings up to
+\* width ExhW take every word over Chars, wider ones the 12 patterns.
+NumTypes == {"i1", "u1", "i2", "u2", "i4", "u4", "i8", "u8", "f4", "f8"}
+AllInt   == {"min", "m1", "z", "p1", "max"}
+AllFlt   == {"nan", "pinf", "ninf", "pz", "nz", "fa", "fb"}
+Base == [Types |-> {"i4", "S1"}, Shapes |-> {"s"}, MaxFields |-> 2, MaxRowEl |-> 4, MaxRows |-> 2, Cap |-> 700,
+         Filter |-> "any", IntToks |-> {"p1"}, UIntToks |-> {"z", "p1", "max"}, FltToks |-> {"nan", "fa"},
+         Chars |-> {"sp", "dl", "x"}, ExhW |-> 3]
+FamDefs == [
+  \* ---- quick tier
+  q_adj2    |-> [Base EXCEPT !.Types = {"i4", "S1", "S2"}],
+  q_adj3    |-> [Base EXCEPT !.MaxFields = 3, !.Cap = 100, !.IntToks = {"min"}],
+  q_arr     |-> [Base EXCEPT !.Types = {"i4", "f8", "S1"}, !.Shapes = {"s", "v2"}, !.MaxRowEl = 3, !.Cap = 100],
+  q_types   |-> [Base EXCEPT !.Types = NumTypes, !.Shapes = {"s", "v2"}, !.MaxFields = 1, !.Cap = 50, !.Filter = "num",
+                             !.IntToks = AllInt, !.FltToks = AllFlt],
+  q_types22 |-> [Base EXCEPT !.Types = NumTypes, !.Shapes = {"m22"}, !.MaxFields = 1, !.MaxRows = 1, !.Cap = 100, !.Filter = "num",
+                             !.IntToks = {"min", "max"}, !.UIntToks = {"z", "max"}, !.FltToks = {"nan", "ninf", "fa"}],
+  q_numpair |-> [Base EXCEPT !.Types = NumTypes, !.MaxRows = 1, !.Cap = 20, !.Filter = "num",
+                             !.IntToks = {"min", "max"}, !.UIntToks = {"max"}, !.FltToks = {"nan", "ninf", "fb"}],
+  q_widths  |-> [Base EXCEPT !.Types = {"i4", "S12"}, !.Filter = "adj", !.Cap = 200],
+  \* ---- thorough tier
+  t_adj2    |-> [Base EXCEPT !.Types = {"i4", "S1", "S2", "S3"}, !.IntToks = {"p1", "min"}, !.Cap = 1700],
+  t_adj2x   |-> [Base EXCEPT !.Types = {"i4", "f8", "S1", "S2"}, !.Cap = 1300, !.Chars = {"sp", "dl", "tb", "x", "1"}],
+  t_adj3    |-> [Base EXCEPT !.Types = {"i4", "S1", "S2"}, !.MaxFields = 3],
+  t_rows3   |-> [Base EXCEPT !.MaxRows = 3, !.Cap = 600, !.IntToks = {"p1", "min"}],
+  t_arr     |-> [Base EXCEPT !.Types = {"i4", "f8", "S1", "S2"}, !.Shapes = {"s", "v2", "m22"}, !.MaxRowEl = 5],
+  t_types   |-> [Base EXCEPT !.Types = NumTypes, !.Shapes = {"s", "v2", "v3"}, !.MaxFields = 1, !.MaxRows = 3, !.Filter = "num",
+                             !.IntToks = AllInt, !.FltToks = AllFlt],
+  t_types22 |-> [Base EXCEPT !.Types = NumTypes, !.Shapes = {"m22", "m23"}, !.MaxFields = 1, !.MaxRowEl = 6, !.MaxRows = 1, !.Cap = 800,
+                             !.Filter = "num", !.IntToks = {"min", "z", "max"}, !.UIntToks = {"z", "max"},
+                             !.FltToks = {"nan", "ninf", "nz", "fa"}],
+  t_numpair |-> [Base EXCEPT !.Types = NumTypes, !.Cap = 90, !.Filter = "num",
+                             !.IntToks = {"min", "m1", "max"}, !.UIntToks = {"z", "max"}, !.FltToks = {"nan", "ninf", "fb"}],
+  t_widths  |-> [Base EXCEPT !.Types = {"i4", "S4", "S5", "S6", "S7", "S8", "S9", "S10", "S11", "S12"}, !.Filter = "adj", !.Cap = 200],
+  t_widths3 |-> [Base EXCEPT !.Types = {"f4", "S5", "S12"}, !.MaxFields = 3, !.Filter = "adj", !.Cap = 150, !.FltToks = {"fa"}]
+]
 
 Names == <<"a", "b", "c", "d">>
 NoTable == [fields |-> <<>>, rows |-> <<>>]
 
-\* ---- the bounded space ------------------------------------------------------------
-Words(w) == UNION {[1..n -> Chars] : n \in 0..w}
+Words(F, w) == UNION {[1..n -> F.Chars] : n \in 0..w}
 Rep(c, n) == [i \in 1..n |-> c]
 Patterns(w) ==                                  \* 12 sampled words for the wide strings
-    LET P == {<<>>, Rep("a", w), <<"sp">> \o Rep("a", w - 1), Rep("a", w - 1) \o <<"sp">>,
-     <<"dl">> \o Rep("a", w - 1), Rep("a", w - 1) \o <<"dl">>, Rep("sp", w), Rep("dl", w),
-     <<"a">>, <<"sp">>, <<"dl", "a">>, <<"a">> \o Rep("sp", w - 2) \o <<"a">>}
+    LET P == {<<>>, Rep("x", w), <<"sp">> \o Rep("x", w - 1), Rep("x", w - 1) \o <<"sp">>,
+              <<"dl">> \o Rep("x", w - 1), Rep("x", w - 1) \o <<"dl">>, Rep("sp", w), Rep("dl", w),
+              <<"x">>, <<"sp">>, <<"dl", "x">>, <<"x">> \o Rep("sp", w - 2) \o <<"x">>}
     IN {p \in P : Len(p) <= w}
 
-ElemSet(f) == IF f.k = "S" THEN (IF f.w <= ExhW THEN Words(f.w) ELSE Patterns(f.w))
-              ELSE IF f.k = "i" THEN IntToks ELSE IF f.k = "u" THEN UIntToks ELSE FltToks
+ElemSet(F, f) == IF f.k = "S" THEN (IF f.w <= F.ExhW THEN Words(F, f.w) ELSE Patterns(f.w))
+                 ELSE IF f.k = "i" THEN F.IntToks ELSE IF f.k = "u" THEN F.UIntToks ELSE F.FltToks
 
 RECURSIVE SeqProd(_)                            \* sequence of sets -> set of sequences
 SeqProd(S) == IF S = <<>> THEN {<<>>} ELSE {<<x>> \o r : x \in Head(S), r \in SeqProd(Tail(S))}
-CellSet(f) == SeqProd([e \in 1..TCNel(f) |-> ElemSet(f)])
-RowSet(l)  == SeqProd([i \in 1..Len(l) |-> CellSet(l[i])])
+CellSet(F, f) == SeqProd([e \in 1..TCNel(f) |-> ElemSet(F, f)])
+RowSet(F, l)  == SeqProd([i \in 1..Len(l) |-> CellSet(F, l[i])])
 
-RECURSIVE CapPow(_, _)                          \* b^e, saturating just above Cap (32-bit integers)
-CapPow(b, e) == IF e = 0 THEN 1 ELSE LET r == CapPow(b, e - 1) IN IF r > Cap THEN r ELSE r * b
-RECURSIVE RowCardFrom(_, _)
-RowCardFrom(l, i) == IF i > Len(l) THEN 1
-                     ELSE LET r == RowCardFrom(l, i + 1)
-                              c == CapPow(Cardinality(ElemSet(l[i])), TCNel(l[i]))
-                          IN IF r > Cap \/ c > Cap THEN Cap + 1 ELSE VMin2(r * c, Cap + 1)
-RowCard(l) == RowCardFrom(l, 1)
-RowEl(l)   == VSum([i \in 1..Len(l) |-> TCNel(l[i])])
+RECURSIVE CapPow(_, _, _)                       \* b^e, saturating just above cap (32-bit integers)
+CapPow(b, e, cap) == IF e = 0 THEN 1 ELSE LET r == CapPow(b, e - 1, cap) IN IF r > cap THEN r ELSE r * b
+RECURSIVE RowCardFrom(_, _, _)
+RowCardFrom(F, l, i) == IF i > Len(l) THEN 1
+                        ELSE LET r == RowCardFrom(F, l, i + 1)
+                                 c == CapPow(Cardinality(ElemSet(F, l[i])), TCNel(l[i]), F.Cap)
+                             IN IF r > F.Cap \/ c > F.Cap THEN F.Cap + 1 ELSE VMin2(r * c, F.Cap + 1)
+RowCard(F, l) == RowCardFrom(F, l, 1)
+RowEl(l)      == VSum([i \in 1..Len(l) |-> TCNel(l[i])])
 
 Adjacent(l) == Len(l) = 1 \/ \E i \in 1..(Len(l) - 1) : TCIsStr(l[i]) # TCIsStr(l[i + 1])
-LayoutOK(l) == /\ RowEl(l) <= MaxRowEl /\ RowCard(l) <= Cap
-               /\ CASE Filter = "adj" -> Adjacent(l) /\ (\E i \in 1..Len(l) : TCIsStr(l[i]))
-                    [] Filter = "num" -> \A i \in 1..Len(l) : ~TCIsStr(l[i])
-                    [] OTHER -> TRUE
+LayoutOK(F, l) == /\ RowEl(l) <= F.MaxRowEl /\ RowCard(F, l) <= F.Cap
+                  /\ CASE F.Filter = "adj" -> Adjacent(l) /\ (\E i \in 1..Len(l) : TCIsStr(l[i]))
+                       [] F.Filter = "num" -> \A i \in 1..Len(l) : ~TCIsStr(l[i])
+                       [] OTHER -> TRUE
 
-Init == /\ phase = "start" /\ lay = <<>> /\ t = NoTable /\ dc = "none" /\ txt = <<>> /\ pos = 0
+Init == /\ phase = "start" /\ fam = "none" /\ lay = <<>> /\ t = NoTable /\ dc = "none" /\ txt = <<>> /\ pos = 0
         /\ ri = 0 /\ fi = 0 /\ cur = <<>> /\ acc = <<>> /\ res = Err("none yet")
 
 ChooseLayout ==
     /\ phase = "start"
-    /\ \E n \in 1..MaxFields : \E tys \in [1..n -> Types] : \E shs \in [1..n -> Shapes] :
+    /\ \E fm \in Fams : LET F == FamDefs[fm] IN
+       \E n \in 1..F.MaxFields : \E tys \in [1..n -> F.Types] : \E shs \in [1..n -> F.Shapes] :
           LET l == [i \in 1..n |-> [name |-> Names[i], k |-> TCTypes[tys[i]].k, w |-> TCTypes[tys[i]].w,
                                     sh |-> TCShapes[shs[i]]]]
-          IN LayoutOK(l) /\ lay' = l
+          IN LayoutOK(F, l) /\ lay' = l /\ fam' = fm
     /\ phase' = "layout" /\ UNCHANGED <<t, dc, txt, pos, ri, fi, cur, acc, res>>
 
 ChooseRows ==
     /\ phase = "layout"
-    /\ \E n \in 1..MaxRows :
-          /\ CapPow(RowCard(lay), n) <= Cap
-          /\ \E rows \in [1..n -> RowSet(lay)] : t' = [fields |-> lay, rows |-> rows]
-    /\ phase' = "table" /\ UNCHANGED <<lay, dc, txt, pos, ri, fi, cur, acc, res>>
+    /\ LET F == FamDefs[fam] IN
+       \E n \in 1..F.MaxRows :
+          /\ CapPow(RowCard(F, lay), n, F.Cap) <= F.Cap
+          /\ \E rows \in [1..n -> RowSet(F, lay)] : t' = [fields |-> lay, rows |-> rows]
+    /\ phase' = "table" /\ UNCHANGED <<fam, lay, dc, txt, pos, ri, fi, cur, acc, res>>
 
 \* ---- the mechanism, one action per code step ---------------------------------------
 Write ==                                        \* Records::WriteRows
     /\ phase = "table"
     /\ \E d \in DClasses : dc' = d
     /\ txt' = TCWriteRows(t) /\ pos' = 1 /\ ri' = 1 /\ fi' = 1 /\ cur' = <<>> /\ acc' = <<>>
-    /\ phase' = "read" /\ UNCHANGED <<lay, t, res>>
+    /\ phase' = "read" /\ UNCHANGED <<fam, lay, t, res>>
 
 Advance(r) ==                                   \* after one field of read_text_columns
     IF ~r.ok THEN /\ phase' = "done" /\ res' = Err("RuntimeError") /\ UNCHANGED <<pos, ri, fi, cur, acc>>
@@ -100,17 +133,17 @@ Advance(r) ==                                   \* after one field of read_text_
 ReadStrField ==                                 \* Records::read_ascii_bytes
     /\ phase = "read" /\ ri <= Len(t.rows) /\ TCIsStr(t.fields[fi])
     /\ Advance(TCReadCell(t.fields[fi], txt, pos, dc, Reader))
-    /\ UNCHANGED <<lay, t, dc, txt>>
+    /\ UNCHANGED <<fam, lay, t, dc, txt>>
 
 ScanNumField ==                                 \* Records::scan_column_values (+ fgetc)
     /\ phase = "read" /\ ri <= Len(t.rows) /\ ~TCIsStr(t.fields[fi])
     /\ Advance(TCReadCell(t.fields[fi], txt, pos, dc, Reader))
-    /\ UNCHANGED <<lay, t, dc, txt>>
+    /\ UNCHANGED <<fam, lay, t, dc, txt>>
 
 Finish ==
     /\ phase = "read" /\ ri > Len(t.rows)
     /\ phase' = "done" /\ res' = Ok(acc)
-    /\ UNCHANGED <<lay, t, dc, txt, pos, ri, fi, cur, acc>>
+    /\ UNCHANGED <<fam, lay, t, dc, txt, pos, ri, fi, cur, acc>>
 
 Next == ChooseLayout \/ ChooseRows \/ Write \/ ReadStrField \/ ScanNumField \/ Finish
 NextExport == ChooseLayout \/ ChooseRows        \* enumeration only (export run)
@@ -122,9 +155,12 @@ RoundTripped == res = Ok(t.rows)
 \* the mechanism refines the property: reading what was written returns the table
 MechRefines == phase = "done" => RoundTripped
 
-\* ... which the pinned scanner does except on the named hazards, and there it never does
+\* ... which the pinned scanner does except on the named hazards.  (On a hazard it nearly
+\* always fails; the exceptions are coincidences such as a lost '-' of the most negative
+\* 4-byte integer, which wraps round to itself.  HazardsHit states the rule without them.)
 MechRefinesModHazards == phase = "done" => (RoundTripped \/ TCHazard(t, dc) # "none")
-HazardsFail           == phase = "done" => (TCHazard(t, dc) # "none" => ~RoundTripped)
+NoMinCell == \A r \in 1..Len(t.rows) : \A i \in 1..Len(t.fields) : t.fields[i].k = "i" => "min" \notin VRange(t.rows[r][i])
+HazardsHit == (phase = "done" /\ NoMinCell) => (TCHazard(t, dc) # "none" => ~RoundTripped)
 
 \* the stepwise run and the operator form of the reader are the same function
 StepsAgree == phase = "done" => res = TCReadRows(t.fields, txt, Len(t.rows), dc, Reader)
@@ -139,6 +175,8 @@ RefAccepted == phase = "table" =>
 
 \* ---- export ------------------------------------------------------------------------
 Pred(d) == [hz |-> TCHazard(t, d), rt |-> TCRoundTrips(t, d, Reader)]
-Export == (DoExport /\ phase = "table") =>
-    PrintT(<<"CASE", ToJson([t |-> t, plain |-> Pred("plain"), tab |-> Pred("tab"), space |-> Pred("space")])>>)
+Export ==
+    /\ (DoExport /\ phase = "start") => \A fm \in Fams : PrintT(<<"FAMILY", ToJson([name |-> fm, def |-> FamDefs[fm]])>>)
+    /\ (DoExport /\ phase = "table") =>
+          PrintT(<<"CASE", ToJson([fam |-> fam, t |-> t, plain |-> Pred("plain"), tab |-> Pred("tab"), space |-> Pred("space")])>>)
 =============================================================================
